@@ -23,7 +23,7 @@ def gen_geometry(rng, ground):
         if tagmode == 'mixed' and rng.random() < 0.5: return None
         return pool.pop()
     z0 = 0.0
-    start = [_d(rng, -2, 2), _d(rng, -2, 2), (0.0 if (ground and rng.random() < 0.6) else _d(rng, 1, 4))]
+    start = [_d(rng, -2, 2), _d(rng, -2, 2), (rng.choice([0.0, 0.0, 1e-9, -2.8e-17]) if (ground and rng.random() < 0.6) else _d(rng, 1, 4))]
     pts = [start]
     for k in range(nw):
         p1 = pts[-1] if rng.random() < 0.7 else [_d(rng, -3, 3), _d(rng, -3, 3), _d(rng, 1, 5)]
@@ -68,7 +68,7 @@ def auto_tags(objs):
     return order
 
 def gen_case(rng, main):
-    ground = rng.choice([None, None, 'ideal', 'real', 'two'])
+    ground = rng.choice([None, None, 'ideal', 'real', 'two', 'three'])
     gopts, objs = gen_geometry(rng, ground)
     order = auto_tags(objs)
     opts = ['-f', _fmt(_d(rng, 3, 30, 4))] + gopts
@@ -99,6 +99,12 @@ def gen_case(rng, main):
         opts.append('--medium=0,0,0')
     elif ground == 'real':
         opts.append('--medium=%s,%s,0' % (_fmt(_d(rng, 3, 20, 3)), _fmt(_d(rng, 0.001, 0.03, 2))))
+    elif ground == 'three':
+        c1 = _d(rng, 5, 20, 3)
+        opts.append('--medium=%s,%s,0,%s' % (_fmt(_d(rng, 3, 20, 3)), _fmt(_d(rng, 0.001, 0.03, 2)), _fmt(c1)))
+        opts.append('--medium=%s,%s,%s,%s' % (_fmt(_d(rng, 3, 20, 3)), _fmt(_d(rng, 0.001, 0.03, 2)), _fmt(-_d(rng, 0, 2, 2)), _fmt(float('%.3g' % (c1 + _d(rng, 5, 30, 3))))))
+        opts.append('--medium=%s,%s,%s' % (_fmt(_d(rng, 3, 20, 3)), _fmt(_d(rng, 0.001, 0.03, 2)), _fmt(-_d(rng, 0, 3, 2))))
+        opts.append('--boundary=' + rng.choice(['linear', 'circular']))
     elif ground == 'two':
         opts.append('--medium=%s,%s,0,%s' % (_fmt(_d(rng, 3, 20, 3)), _fmt(_d(rng, 0.001, 0.03, 2)), _fmt(_d(rng, 5, 20, 3))))
         opts.append('--medium=%s,%s,%s' % (_fmt(_d(rng, 3, 20, 3)), _fmt(_d(rng, 0.001, 0.03, 2)), _fmt(-_d(rng, 0, 3, 2))))
